@@ -287,9 +287,11 @@ inductive Op (J : Type) where
   | metaDel (path : List String)
   | delete (id : Id)
 
-def nodeIdOf (k : Nat) : Id := "Node-" ++ toString k
+/-- `fmt.Sprintf("Node-%d", k)` -/
+def nodeIdOf (k : Nat) : Id := "Node-" ++ String.ofList (natDigits k)
 
-/-- buildIDsForNode: first `Node-k`, k ≥ len(nodeIDs), not in use.  `fuel` bounds the search (the Go loop has none). -/
+/-- buildIDsForNode: first `Node-k`, k ≥ len(nodeIDs), not in use.  `fuel` bounds the search (the Go loop has none);
+    Props/C12 `firstFree_sufficient`: with fuel > len(ids) the search always finds a free id (pigeonhole). -/
 def firstFree (ids : List Id) : Nat → Nat → Option Id
   | 0, _ => none
   | fuel + 1, k => if nodeIdOf k ∈ ids then firstFree ids fuel (k + 1) else some (nodeIdOf k)
@@ -385,7 +387,9 @@ def step {V J} (E : Env V J) (g : Graph V) : Op J → Except Err (Graph V)
     else .ok { g with nodes := g.nodes.filter (fun n => n.id ≠ id),
                       prods := g.prods.filter (fun kv => kv.2.node ≠ id) }
 
-/-- an operation that panics / errors leaves the graph unchanged (Go: the panic precedes every mutation) -/
+/-- DEFINITION (not a theorem): an operation that panics / errors leaves the graph unchanged.  That the Go code behaves
+    so (every panic precedes the first mutation) is read off the source and tied by the `c12.edit` lines: each history
+    contains failing operations and the dump after them must equal the model's. -/
 def stepTotal {V J} (E : Env V J) (g : Graph V) (op : Op J) : Graph V :=
   match step E g op with
   | .ok g' => g'
@@ -570,7 +574,8 @@ def decode {V J} (E : Env V J) (fresh : Hdr) (s : Schema J) : Except Err (Graph 
   let prods ← decodeProds E s.nodes s.prods
   .ok { nodes := nodes, prods := prods, md := s.md, hdr := applyHdr fresh s.hdr }
 
-/-! ### "same graph": the decidable predicate the `same_graph` oracle evaluates and `decode_encode` is stated with -/
+/-! ### "same graph": the decidable predicate the `same_graph` oracle evaluates on the two dumps.
+    (`decode_encode` itself is stated with `=` on `Graph.norm`; `norm_same` lists what `norm` keeps.) -/
 
 def Param.view {V} (p : Param V) : String × String × Option V × Option V × Option (String × String) :=
   (p.name, p.desc, p.value, p.dflt, p.cli)
